@@ -24,6 +24,106 @@ def evaluate(case):
     return None
 
 
+def _kind_of_dtype(name):
+    if name.startswith("float"):
+        return "float"
+    if name.startswith("uint"):
+        return "uint"
+    if name == "bool":
+        return "bool"
+    return "int"
+
+
+def _fits(kind, xs):
+    for x in xs:
+        if isinstance(x, bool):
+            continue
+        if kind == "float":
+            continue
+        if isinstance(x, float) and not x.is_integer():
+            return False
+        if kind in ("uint", "safeint", "bool") and x < 0:
+            return False
+        if kind == "bool" and x not in (0, 1):
+            return False
+    return True
+
+
+def valid(history):
+    """Does the history respect the generator's precondition that every assigned value is representable in the
+    table's value dtype (tracked exactly as the generator tracks it)?  Shrinking must not leave this domain:
+    outside it a table stores a cast value and every tree 'fails'."""
+    info = {}
+    try:
+        for op in history:
+            o = op["op"]
+            if o == "new":
+                dt = op.get("key_dtype") or "int64"
+                v = op.get("values")
+                if op["cls"] == "HashSet":
+                    info[op["dst"]] = {"dt": dt, "vk": "int", "st": True, "novd": False, "keys": set(op["keys"])}
+                elif v[0] == "scalar":
+                    if op.get("value_dtype"):
+                        vk, novd = _kind_of_dtype(op["value_dtype"]), False
+                    elif op["cls"] == "Counter":
+                        vk, novd = "int", False          # Counter passes value_dtype=int itself
+                    else:
+                        vk, novd = ("uint" if dt.startswith("uint") else "int"), op["cls"] == "HashTable"
+                    info[op["dst"]] = {"dt": dt, "vk": vk, "st": True, "novd": novd, "keys": set(op["keys"])}
+                else:
+                    info[op["dst"]] = {"dt": dt, "vk": _kind_of_dtype(v[1]), "st": False, "novd": False,
+                                       "keys": set(op["keys"])}
+                    if not _fits(info[op["dst"]]["vk"], v[2]):
+                        return False
+            elif o == "derive":
+                h = info[op["src"]]
+                vk = h["vk"]
+                if h["novd"] == "uncertain":
+                    vk = "safeint"
+                elif h["novd"]:
+                    vk = "uint" if h["dt"].startswith("uint") else "int"
+                info[op["dst"]] = {"dt": h["dt"], "vk": vk, "st": True, "novd": h["novd"], "keys": h["keys"]}
+            elif o == "add":
+                a, b = info[op["a"]], info[op["b"]]
+                if a["st"] is True and b["st"] is True:
+                    new = {"vk": "uint" if a["dt"].startswith("uint") else "int", "st": True, "novd": True}
+                elif a["st"] is None or b["st"] is None or "uncertain" in (a["novd"], b["novd"]) \
+                        or "safeint" in (a["vk"], b["vk"]):
+                    new = {"vk": "safeint", "st": False if (a["st"] is False or b["st"] is False) else None,
+                           "novd": "uncertain"}
+                else:
+                    ka = a["vk"] if not a["st"] else "int"
+                    kb = b["vk"] if not b["st"] else "int"
+                    vk = "float" if "float" in (ka, kb) else ("uint" if ka == kb == "uint" else "int")
+                    new = {"vk": vk, "st": False, "novd": False}
+                new["dt"] = a["dt"]
+                new["keys"] = a["keys"]
+                info[op["dst"]] = new
+            elif o in ("set", "setv"):
+                h = info[op["h"]]
+                val = op["value"]
+                xs = [val[1]] if val[0] == "scalar" else val[2]
+                if not _fits(h["vk"], xs):
+                    return False
+                if o == "set":
+                    if op["key"] in h["keys"]:
+                        h["st"] = False
+                elif all(kk in h["keys"] for kk in op["keys"]):
+                    h["st"] = False              # accepted: the values are certainly expanded now
+                elif h["st"] is not False:
+                    h["st"] = None               # refused: expanded or not, the property does not say
+            elif o == "fill":
+                if not _fits(info[op["h"]]["vk"], [op["value"]]):
+                    return False
+            elif o == "count":
+                h = info[op["h"]]
+                if any(x in h["keys"] for x in op["batch"]):
+                    h["st"] = False
+    except Exception:
+        return False
+    return True
+
+
 def _handles_defined(op):
     return [op["dst"]] if op.get("dst") else []
 
@@ -100,6 +200,8 @@ def minimise(case, budget=600):
         if used[0] >= budget:
             return None
         used[0] += 1
+        if not valid(hist):
+            return None
         c = dict(case)
         c["history"], c["config"] = hist, config
         try:
